@@ -11,7 +11,7 @@ from common import log, load_known, known_match, write_evidence, WORK, VERIF, To
 # which engines bear on which property
 RT_PROPS = {"C01", "C02", "C03", "C04", "C05", "C06", "C07", "C08", "C09", "C10", "C11", "C15", "C16", "C18", "C19"}
 VERDICT_PROPS = {"C10", "C11", "C12", "C13", "C14"}
-SURFACE_PROPS = {"C09", "C15", "C19"}
+SURFACE_PROPS = {"C09", "C10", "C15", "C19"}
 LEVEL = {p: "model_checking" for p in ["C01", "C02", "C03", "C04", "C05", "C06", "C07", "C08", "C09", "C10", "C11",
                                        "C12", "C13", "C14", "C15", "C18", "C19"]}
 LEVEL.update({"C16": "exploration", "C17": "exploration"})
